@@ -17,10 +17,11 @@ Inductive vcase :=
     (* obsconsumer: signal 0..3 (3 = profiles); op = (items offered, (items left after the downstream call, error?)) *)
 | CExp (cfg : list Z) (outs : list (Z * Z)) (ops : list (Z * list Z)) (obs : list Z) (gauges : list Z) (extra : list Z).
     (* cfg = [signal; queue; storage; items sizer; capacity; wait_for_result; qbatch?; qmin; qmax;
-              batcher?; bmin; bmax; retry; tracing (spans recording)];  out = (0 ok|1 transient|2 permanent|3 partial|4 hang, k);
+              batcher?; bmin; bmax; retry; tracing (spans recording); block_on_overflow; item count the Encoding refuses to marshal (-1 none)];  out = (0 ok|1 transient|2 permanent|3 partial|4 hang, k);
        op = (0,[n]) offer | (1, ns) burst | (2,[]) flush timer;
        obs = counter vector after shutdown; gauges = queue-size gauge after each op;
-       extra = [capacity gauge; items still stored after shutdown] *)
+       extra = [capacity gauge; items still stored after shutdown] ++ what each Send through a queue returned
+               (0 nil | 1 queue full | 2 too large | 3 context error of a producer that gave up while blocked) *)
 
 Definition sig_of_Z (z : Z) : signal :=
   if z =? 0 then Traces else if z =? 1 then Metrics else if z =? 2 then Logs else Profiles.
@@ -65,7 +66,7 @@ Definition zb (z : Z) : bool := negb (z =? 0).
 Definition eopts_of (cfg : list Z) : eopts :=
   let g := fun i => nth i cfg 0 in
   {| o_sig := sig_of_Z (g 0%nat); o_queue := zb (g 1%nat); o_storage := zb (g 2%nat); o_items_sizer := zb (g 3%nat);
-     o_cap := g 4%nat; o_wfr := zb (g 5%nat);
+     o_cap := g 4%nat; o_wfr := zb (g 5%nat); o_block := zb (g 14%nat); o_badmarshal := (if 15 <? Z.of_nat (length cfg) then g 15%nat else -1);
      o_qbatch := if zb (g 6%nat) then Some (g 7%nat, g 8%nat) else None;
      o_batcher := if zb (g 9%nat) then Some (g 10%nat, g 11%nat) else None;
      o_retry := zb (g 12%nat); o_tracing := zb (g 13%nat) |}.
@@ -86,7 +87,7 @@ Definition zlist_eqb := list_eqb Z.eqb.
 
 Definition exp_out (cfg : list Z) (outs : list (Z * Z)) (ops : list (Z * list Z)) : list Z * (list Z * list Z) :=
   let st := exp_run cfg outs ops in
-  (vec (s_led st), (s_gauges st, [gauge_capacity (eopts_of cfg); s_stored st])).
+  (vec (s_led st), (s_gauges st, [gauge_capacity (eopts_of cfg); s_stored st] ++ s_sends st)).
 
 Definition model_out (c : vcase) : list Z * (list Z * list Z) :=
   match c with
